@@ -1,0 +1,16 @@
+//go:build verif
+
+package fsm
+
+import "github.com/canopy-network/canopy/lib"
+
+// Verification hooks (build tag `verif` only; add-only, no production code path uses them).
+
+// VerifLiquidityDepositPoints exposes the unexported points formula of the DEX for differential checks
+// against its Lean model.
+func VerifLiquidityDepositPoints(totalPoints, x, y, amount uint64) (uint64, lib.ErrorI) {
+	return liquidityDepositPoints(totalPoints, x, y, amount)
+}
+
+// VerifDeadAddress is the permanent dead liquidity-provider address.
+func VerifDeadAddress() []byte { return deadAddr.Bytes() }
